@@ -55,7 +55,17 @@ def read_graph(graph_raw) -> nx.DiGraph:
     header_lines = []
     constraint_subpaths = []       # list of subpaths, each a list of (u,v) edge tuples
     subpaths_seen = set()          # set of full node sequences (tuples) to filter duplicate subpaths
-    while idx < len(graph_raw) and graph_raw[idx].lstrip().startswith("#"):
+    def _header_continues(lines, pos):
+        # a header line, or blank lines followed by another header line
+        while pos < len(lines) and lines[pos].strip() == "":
+            pos += 1
+        return pos < len(lines) and lines[pos].lstrip().startswith("#")
+
+    while idx < len(graph_raw) and _header_continues(graph_raw, idx):
+        if graph_raw[idx].strip() == "":
+            # blank line between two header lines
+            idx += 1
+            continue
         stripped = graph_raw[idx].lstrip()
         # Subpath constraint line: starts with '#S'
         if stripped.startswith("#S"):
@@ -117,6 +127,10 @@ def read_graph(graph_raw) -> nx.DiGraph:
         except ValueError:
             utils.logger.error(f"{__name__}: Invalid weight value in edge: {line.rstrip()}")
             raise
+        if w != w or w in (float("inf"), float("-inf")):
+            # 'nan', 'inf', '1e999' are accepted by float() but are not numbers a graph can carry
+            utils.logger.error(f"{__name__}: Invalid weight value in edge: {line.rstrip()}")
+            raise ValueError(f"Invalid weight value in edge: {line.rstrip()}")
         G.add_edge(u.strip(), v.strip(), flow=w)
 
     # Validate that every constraint edge exists in the graph
@@ -165,9 +179,18 @@ def read_graphs(filename):
 
         start = i
 
-        # Consume all consecutive header lines for this graph
-        while i < n_lines and lines[i].lstrip().startswith('#'):
-            i += 1
+        # Consume all consecutive header lines for this graph (blank lines between header lines do not end the header)
+        while i < n_lines:
+            if lines[i].lstrip().startswith('#'):
+                i += 1
+                continue
+            k = i
+            while k < n_lines and lines[k].strip() == "":
+                k += 1
+            if k > i and k < n_lines and lines[k].lstrip().startswith('#'):
+                i = k
+                continue
+            break
 
         # Advance until the next header line (start of next graph) or EOF
         j = i
